@@ -687,6 +687,12 @@ class Interp:
         m = self.world.binop_model('index', obj, idx, self)
         if m is not NotImplemented:
             return m
+        if isinstance(obj, SVal):
+            # item read on an opaque object: uninterpreted, logged
+            from . import models
+            r = models.apply_uf('py.getitem', (obj, idx), 'Val')
+            self.calls.append(('getitem', (obj, idx), r))
+            return r
         raise Unsupported('index into %r' % (obj,))
 
     def e_Attribute(self, node, fr):
@@ -698,7 +704,7 @@ class Interp:
             return self.world.module_attr(obj.name, name, self)
         if type(obj).__name__ == 'module':
             return getattr(obj, name)
-        if isinstance(obj, SFunc) and name == 'name':
+        if isinstance(obj, (SFunc, ClassRef)) and name == 'name':
             return obj.name
         if isinstance(obj, FuncRef) and name == 'closure_vars':
             out = {}
